@@ -8,10 +8,13 @@ Ghost state:  ghost.IN  = bytes the read transport has handed out so far (C03 C1
 
 
 def register(R):
-    R.ghost(IN="bytes", recv_calls="int", EOF="bool", WIRE="bytes", now="real", waited="real")
+    R.ghost(IN="bytes", recv_calls="int", EOF="bool", WIRE="bytes", now="real", waited="real", select_calls="int", unbounded_waits="int", last_wait="real", cb_returned="int", cb_failed="int")
     R.external("time.perf_counter", "stubs.stdlib.perf_counter")
     R.external("os.strerror", "stubs.stdlib.strerror")
+    R.stubs("stubs/transports.py", "stubs.transports")
+    R.external("math.isnan", "stubs.transports.isnan")
     R.module("easynetwork/lowlevel/_utils.py")
+    R.inline_fn("validate_timeout_delay")
     R.inline_fn("error_from_errno", "ElapsedTime.__init__", "ElapsedTime.__enter__", "ElapsedTime.__exit__", "ElapsedTime.get_elapsed",
                 "ElapsedTime.recompute_timeout")
 
@@ -74,6 +77,8 @@ def register(R):
         modifies=["ghost.WIRE", "ghost.now"],
         tags="C04 C11",
     )
+    register_retry(R)
+    R.module("easynetwork/lowlevel/api_sync/transports/abc.py")
     R.contract(
         "StreamWriteTransport.send_all_from_iterable",
         params={"iterable_of_data": "bytesseq", "timeout": "xreal"},
@@ -81,4 +86,59 @@ def register(R):
         raises={"OSError": [("a-prefix-was-sent", "len(ghost.WIRE) >= len(old(ghost.WIRE))", "C04")]},
         modifies=["ghost.WIRE", "ghost.now"],
         tags="C04",
+    )
+
+
+def register_retry(R):
+    """SelectorBaseTransport._retry — the timeout budget (C11, DESIGN A8)."""
+    R.module("easynetwork/lowlevel/api_sync/transports/base_selector.py")
+    R.assume("machine floats are treated as mathematical (extended) reals; NaN timeouts are rejected by validate_timeout_delay (math.isnan modelled as False)")
+    R.assume("selector.select(w) blocks at most w and returns 'not ready' only after the full w (assumed OS behaviour); time.perf_counter is a "
+             "non-decreasing clock; time spent outside select is the property's 'bounded processing time'")
+    R.shape("SelectorBaseTransport", cls="SelectorBaseTransport",
+            fields={"_retry_interval": "xreal", "_selector_factory": "fn:stubs.transports:selector_factory"},
+            invariant=[("retry-interval-positive", "isinf(self._retry_interval) or fin(self._retry_interval) > 0")])
+    T = "old(timeout)"
+    W = "(ghost.waited - old(ghost.waited))"
+    EL = "(ghost.now - old(ghost.now))"
+    CBF = "ghost.cb_failed != old(ghost.cb_failed)"  # the exception comes from the callback, not from _retry itself
+    budget = [
+        ("remaining-budget-is-non-negative", "isinf(timeout) or fin(timeout) >= 0", "C11"),
+        ("blocked-time-plus-remaining-budget-never-exceeds-T", f"isinf({T}) or (not isinf(timeout) and {W} + fin(timeout) <= fin({T}))", "C11"),
+        ("remaining-budget-is-not-understated", f"implies(not isinf({T}), fin({T}) - {EL} <= fin(timeout))", "C11"),
+        ("infinite-stays-infinite", f"implies(isinf({T}), isinf(timeout))", "C11"),
+        ("no-unbounded-wait-with-a-finite-budget", f"implies(not isinf({T}), ghost.unbounded_waits == old(ghost.unbounded_waits))", "C11"),
+        ("zero-budget-never-blocks", f"implies(not isinf({T}) and fin({T}) == 0, ghost.select_calls == old(ghost.select_calls))", "C11"),
+    ]
+    R.contract(
+        "SelectorBaseTransport._retry",
+        params={"callback": "fn:stubs.transports:retry_callback", "timeout": "xreal"},
+        result="tuple[obj,xreal]",
+        loops={1: {"inv": [e for _n, e, _t in budget] + ["retry_interval == self._retry_interval", "ghost.cb_returned == old(ghost.cb_returned)", "ghost.cb_failed == old(ghost.cb_failed)",
+                                                               "ghost.waited >= old(ghost.waited)", "ghost.now >= old(ghost.now)", "ghost.select_calls >= old(ghost.select_calls)"]}},
+        ensures=[
+            ("callback-returned-exactly-once", "ghost.cb_returned == old(ghost.cb_returned) + 1", "C04 C11"),
+            ("returned-budget-non-negative", "isinf(result[1]) or fin(result[1]) >= 0", "C11"),
+            ("total-blocking-within-budget", f"isinf({T}) or (not isinf(result[1]) and {W} + fin(result[1]) <= fin({T}))", "C11"),
+            ("returned-budget-not-understated", f"implies(not isinf({T}), fin({T}) - {EL} <= fin(result[1]))", "C11"),
+            ("no-unbounded-wait-with-a-finite-budget", f"implies(not isinf({T}), ghost.unbounded_waits == old(ghost.unbounded_waits))", "C11"),
+            ("zero-budget-never-blocks", f"implies(not isinf({T}) and fin({T}) == 0, ghost.select_calls == old(ghost.select_calls))", "C11"),
+        ],
+        raises={
+            "ValueError": [("negative-timeout-rejected-before-any-call",
+                            f"ghost.cb_failed != old(ghost.cb_failed) or (not isinf({T}) and fin({T}) < 0 and ghost.select_calls == old(ghost.select_calls) and ghost.cb_returned == old(ghost.cb_returned))", "C11")],
+            "TimeoutError": [
+                ("only-with-a-finite-budget", f"{CBF} or not isinf({T})", "C11"),
+                ("only-after-the-whole-budget-elapsed", f"{CBF} or {EL} >= fin({T})", "C11"),
+                ("blocked-at-most-T", f"isinf({T}) or {W} <= fin({T})", "C11"),
+                ("zero-budget-never-blocks", f"implies(not isinf({T}) and fin({T}) == 0, ghost.select_calls == old(ghost.select_calls))", "C11"),
+                ("callback-never-returned", "ghost.cb_returned == old(ghost.cb_returned)", "C11"),
+            ],
+            "OSError": [("bad-file-descriptor-from-register-or-callback-failure", f"isinf({T}) or {W} <= fin({T})", "C11")],
+            "RuntimeError": [("infinite-wait-reported-nothing", f"{CBF} or isinf({T})", "C11")],
+            "Exception": [("callback-failure-propagates-unchanged", f"isinf({T}) or {W} <= fin({T})", "C11")],
+            "BaseException": [("callback-failure-propagates-unchanged", "True")],
+        },
+        modifies=["ghost.now", "ghost.waited", "ghost.select_calls", "ghost.unbounded_waits", "ghost.last_wait", "ghost.cb_returned", "ghost.cb_failed"],
+        tags="C11",
     )
